@@ -473,6 +473,30 @@ def serde (ws : List String) : String :=
     | some (t, []) => s!"rdout serde back={showBack (decodeWith (stringly == "1") t)}"
     | _ => "bad-op"
   | "whole" :: _ => "rdout serde whole"
+  | ["partial", fl, u, c, pool, flag, name] =>
+    let f : Flavour := if fl == "cluster" then .cluster else if fl == "sentinel" then .sentinel else .redis
+    let d : WholeDoc :=
+      { urls := u == "1", conns := c == "1",
+        pool := if pool == "-" then none else pool.toNat?,
+        flag := if flag == "-" then none else some (flag == "1"),
+        name := if name == "-" then none else some name }
+    let w := decodeWhole f d
+    let dec := match w.decision with
+      | .useUrls _ => "urls"
+      | .useConnections _ => "conns"
+      | .useDefault => "default"
+      | .urlAndConnectionSpecified => "both"
+    let x1 := match f with
+      | .redis => "-"
+      | _ => if w.flag then "1" else "0"
+    let x2 := match f with
+      | .sentinel => w.name
+      | _ => "-"
+    let b (x : Bool) : String := if x then "1" else "0"
+    let pl := match w.pool with
+      | none => "-"
+      | some n => toString n
+    s!"rdout serde partial u={b w.urls} c={b w.conns} pool={pl} flag={x1} name={x2} build={dec}"
   | _ => "bad-op"
 
 /-- `node <arm> <present> <db> <user|-> <pass|->`: a sentinel Config with this node connection
